@@ -64,6 +64,7 @@ type Inv struct {
 	CPUs int
 	// Prepopulated counts destinations the generator created before the run (statistics)
 	Prepopulated int
+	StaleBaks    int
 }
 
 type Filter struct {
